@@ -59,6 +59,10 @@ def tasks(tier):
     for ts, (mn, mx) in itertools.product([0.5, 0.9, 1.0], [(1.0, 1.0), (1.0, 5.0), (2.0, 5.0)]):
         out.append({"family": "adaptive", "cfg": {"target": ts, "min": mn, "max": mx, "window": 4},
                     "entry": "adaptive", "bound": d, "weight": 4})
+    # very long histories inside one window (bounded-memory optimisations must not break the range)
+    for ts, (mn, mx) in itertools.product([0.5, 0.9], [(1.0, 3.0), (2.0, 5.0)]):
+        out.append({"family": "adaptive-long", "cfg": {"target": ts, "min": mn, "max": mx, "window": 4},
+                    "entry": "adaptive", "bound": 0, "weight": 4})
     return out
 
 
@@ -268,8 +272,59 @@ def run_adaptive(task, seed):
     return res
 
 
+def run_adaptive_long(task, seed):
+    """Histories of thousands of events: N failures (with a few successes mixed in) recorded at
+    one instant or spread over the window, then calls with several fallback answers."""
+    from .. import env as E
+    E.install()
+    from redress import strategies as S
+    from redress.classify import Classification
+    from redress.errors import ErrorClass
+    res = new_result()
+    cfg = task["cfg"]
+    W = cfg["window"] * E.TAU
+    ctx = S.BackoffContext(attempt=1, classification=Classification(klass=ErrorClass.TRANSIENT),
+                           prev_sleep_s=None, remaining_s=None, cause="exception")
+    sizes = [1, 2, 64, 1023, 1024, 1025, 4095, 4096, 4097, 5000, 8192, 20000]
+    for n, every_ok, spread in itertools.product(sizes, [0, 3, 50], [False, True]):
+        clock = E.Clock()
+        E.set_clock(clock)
+        box = [0.0]
+        st = S.adaptive(lambda c: box[0], window_s=W, target_success=cfg["target"],
+                        min_multiplier=cfg["min"], max_multiplier=cfg["max"], clock=E.v_monotonic)
+        for i in range(n):
+            if every_ok and i % every_ok == 0:
+                st.record_success()
+            else:
+                st.record_failure(ErrorClass.TRANSIENT)
+            if spread and i % 1000 == 999:
+                clock.now += W / 64
+        for fb in (0.0, 0.125, 5.0, -1.0):
+            box[0] = fb
+            res["execs"] += 1
+            case = ("adaptive-long", cfg["target"], cfg["min"], cfg["max"], n, every_ok, spread, fb)
+            res["nontrivial"].add(hash(case))
+            try:
+                v = st(ctx)
+            except Exception as e:  # noqa: BLE001
+                add_violation(res, "c18.raises", f"{case} raised {type(e).__name__}: {e}", cfg,
+                              "adaptive", case)
+                continue
+            lo, hi = sorted((fb * cfg["min"], fb * cfg["max"]))
+            res["outcomes"].add(("adaptive-long", n > 4096, v == fb * cfg["max"]))
+            if not (isinstance(v, (int, float)) and math.isfinite(v) and lo - 1e-12 <= v <= hi + 1e-12):
+                add_violation(res, "c18.envelope",
+                              f"adaptive after {n} recorded events (success every {every_ok}, "
+                              f"spread={spread}): fallback {fb} scaled to {v!r}, outside "
+                              f"[{cfg['min']}, {cfg['max']}] x fallback", cfg, "adaptive", case)
+    res["samples"].append({"events": 5000, "cfg": cfg})
+    return res
+
+
 def run_task(task, seed):
     fam = task["family"]
+    if fam == "adaptive-long":
+        return run_adaptive_long(task, seed)
     if fam == "envelope":
         return run_envelope(task, seed)
     if fam == "retry-after-or":
